@@ -266,7 +266,7 @@ def analyse_unit(unit, res, report, unit_path):
             continue
         if "canary" in kinds:
             it = [w[1] for w in where if w[0] == "canary"][0]
-            seen_canary.add(it["selector"])
+            seen_canary.add((it["selector"], tuple(it["canary_lines"])))
             continue
         if kind is None:
             if any(r in msg for r in RESOURCE) or "rlimit" in d["text"]:
